@@ -715,7 +715,9 @@ func (server *Server) registerCoreExecutors() {
 			return nil, err
 		}
 
-		msg, err := server.userCommandHandler.ZRange(conn, key, start, stop, opt)
+		// The reverse range [start, stop] is the range [-stop-1, -start-1] of
+		// the ascending order, read backwards.
+		msg, err := server.userCommandHandler.ZRange(conn, key, -stop-1, -start-1, opt)
 		if err != nil {
 			return msg, err
 		}
